@@ -1,6 +1,6 @@
 """C05 / C02 / C19 kernels: elliptical arcs (stored point form: center, prx, pry, sweep)."""
 from pyvc.registry import ob, family
-from pyvc.api import And, Or, Not, Implies, Ite, Abs
+from pyvc.api import And, Or, Not, Implies, Ite, Abs, Min, Max
 from ._common import *  # noqa
 
 POS = lambda r: r.uniform(0.2, 30)  # noqa
@@ -265,35 +265,31 @@ def primed(E, x1, y1, x2, y2, rot):
     return c, s, c * dx + s * dy, -s * dx + c * dy
 
 
-@family("C05/Arc._svg_parameterize/geometry", FLAGS, funcs=PARAM_FUNCS, props=["C05"], timeout_ms=60000)
-def _(E, flags):
-    fa, fs = flags
-    x1, y1, x2, y2, rx, ry, rot = f65_inputs(E)
+# --------------------------------------------------------------------------------------------------
+# C05 degenerate inputs: coincident endpoints draw nothing, a zero radius draws the straight line
+# --------------------------------------------------------------------------------------------------
+@family("C05/Arc.degenerate", ["zero_rx", "zero_ry", "coincident"],
+        funcs=["Arc.__init__", "Arc._svg_parameterize", "Arc.npoint", "Arc.length", "Arc.bbox", "PathSegment.point",
+               "Point.towards", "Point.distance", "Point.__eq__"], props=["C05", "C08", "C15"])
+def _(E, case):
+    x1, y1, x2, y2 = E.reals("x1 y1 x2 y2", ANY)
+    rx, ry = E.reals("rx ry", POS)
+    rot = E.real("rot", lambda r: r.uniform(-400, 400))
+    fa, fs = E.choice("large", [0, 1]), E.choice("sweep", [0, 1])
+    if case == "zero_rx":
+        rx = 0
+    elif case == "zero_ry":
+        ry = 0
+    else:
+        x2, y2 = x1, y1
     arc = E.construct("Arc", (x1, y1), rx, ry, rot, fa, fs, (x2, y2))
-    c, s, x1p, y1p = primed(E, x1, y1, x2, y2, rot)
-    lam = x1p * x1p / (rx * rx) + y1p * y1p / (ry * ry)
-    E.ensure("endpoints_are_the_given_points", And(pt_eq(arc.start, (x1, y1)), pt_eq(arc.end, (x2, y2))))
-    C = pt(arc.center)
-    P, Q = sub(pt(arc.prx), C), sub(pt(arc.pry), C)
-    # stored point form: P = rx' (cos, sin), Q = ry' (-sin, cos) with rx' = k*rx, ry' = k*ry, k = max(1, sqrt(lam))
-    k = E.real("k")
-    E.assume(And(k >= 1, Ite(lam > 1, k * k == lam, k == 1)))
-    E.ensure("radius_points_are_the_(scaled)_radii_on_the_rotated_axes",
-             And(pt_eq(P, (k * rx * c, k * rx * s)), pt_eq(Q, (-k * ry * s, k * ry * c))))
-    # both endpoints lie on the ellipse centre + rotated axes with the corrected radii
-    for nm, (x, y) in (("start", (x1, y1)), ("end", (x2, y2))):
-        d = (x - C[0], y - C[1])
-        u, v = (d[0] * c + d[1] * s), (-d[0] * s + d[1] * c)
-        E.ensure("%s_on_the_ellipse" % nm,
-                 u * u * (k * ry) * (k * ry) + v * v * (k * rx) * (k * rx) == (k * rx) * (k * rx) * (k * ry) * (k * ry))
-
-
-@family("C05/Arc._svg_parameterize/sweep", FLAGS, funcs=PARAM_FUNCS, props=["C05"], timeout_ms=60000)
-def _(E, flags):
-    fa, fs = flags
-    x1, y1, x2, y2, rx, ry, rot = f65_inputs(E)
-    arc = E.construct("Arc", (x1, y1), rx, ry, rot, fa, fs, (x2, y2))
-    sw = arc.sweep
-    E.ensure("direction_follows_the_sweep_flag", (sw >= 0) if fs else (sw <= 0))
-    E.ensure("at_most_one_turn", Abs(sw) <= E.tau)
-    E.ensure("extent_follows_the_large_arc_flag", (Abs(sw) >= E.pi) if fa else (Abs(sw) <= E.pi))
+    t = E.real("t", lambda r: r.uniform(0, 1))
+    E.assume(And(t >= 0, t <= 1))
+    p = E.call(arc, "point", t)
+    E.ensure("points_of_the_straight_line_(or_the_single_point)", pt_eq(p, bern1(((x1, y1), (x2, y2)), t)))
+    L = E.call(arc, "length")
+    E.ensure("length_of_the_chord", And(L >= 0, L * L == (x2 - x1) * (x2 - x1) + (y2 - y1) * (y2 - y1)))
+    b = tuple(E.call(arc, "bbox"))
+    E.ensure("ordered_box_of_the_endpoints", And(b[0] == Min(x1, x2), b[1] == Min(y1, y2), b[2] == Max(x1, x2),
+                                                 b[3] == Max(y1, y2)))
+    E.ensure("endpoints_kept", And(pt_eq(arc.start, (x1, y1)), pt_eq(arc.end, (x2, y2)), arc.sweep == 0))
